@@ -693,6 +693,8 @@ pub struct Session {
     pub verify: Option<crate::bytecode::Table>,
     /// what the verifier found, per line: (line number, class, detail)
     pub findings: Vec<(usize, String, String)>,
+    /// globals declared by the lines so far (the code that declared them may have been dropped by the compiler)
+    globals_seen: usize,
     /// C04: the heap objects of the results the lines handed to the caller (each once)
     handed: Vec<Object>,
 }
@@ -704,7 +706,7 @@ pub fn session_begin() -> Session {
     verif::set_boundaries(None);
     take_last_panic();
     GCSTATS.with(|g| *g.borrow_mut() = GcStats::default());
-    Session { compiler: Some(nederlang::compiler::Compiler::new()), vm: Some(nederlang::vm::VM::new()), history: Vec::new(), verify: None, findings: Vec::new(), handed: Vec::new() }
+    Session { compiler: Some(nederlang::compiler::Compiler::new()), vm: Some(nederlang::vm::VM::new()), history: Vec::new(), verify: None, findings: Vec::new(), globals_seen: 0, handed: Vec::new() }
 }
 
 impl Session {
@@ -722,11 +724,15 @@ impl Session {
         let table = self.verify.as_ref();
         let line_no = self.history.len() - 1;
         let mut found: Vec<(usize, String, String)> = Vec::new();
+        let known_globals = self.globals_seen;
+        let mut globals_now = known_globals;
         let r = catch_unwind(AssertUnwindSafe(|| {
             let ast = nederlang::parser::parse(text)?;
             let code = compiler.compile_ast(&ast)?;
             if let Some(t) = table {
-                for f in crate::verifier::verify(&code, t).findings {
+                let vr = crate::verifier::verify_after(&code, t, known_globals);
+                globals_now = vr.globals;
+                for f in vr.findings {
                     found.push((line_no, f.class, f.detail));
                 }
                 verif::set_boundaries(crate::verifier::boundaries(&code, t));
@@ -734,6 +740,7 @@ impl Session {
             vm.run(code)
         }));
         verif::set_boundaries(None);
+        self.globals_seen = globals_now;
         self.findings.extend(found);
         let ticks = verif::ticks();
         let mut w = Walker::new();
